@@ -36,7 +36,7 @@ TABLE = [
     (r"^UnsealedState::apply_tip_909\|extern\|swap_many\|", "priced-pool", "MEL/SYM is created by create_builtins at the chain's first seal with 10^9 unowned liquidity per side (C16.R2) and swaps are assumed never to drain a side to zero; ERG/SYM can be pre-empted by users before TIP-902 and emptied (finding D19), so its use is guarded by a reserve test (evaluated here)"),
     (r"^UnsealedState::apply_tip_909\|unwrap\|unwrap\|SmtMapping::get\((\$1|self)\.pools, PoolKey::new\(Denom::(Mel|Erg)\{\}, Denom::Sym\{\}\)\)", "inv", "create_builtins dominates in seal (C16.R1/R2); ERG/SYM exists because TIP-902 (180000) activates before TIP-909 (950000) and both use the same activation rule"),
     # (removed with repair e9bdbb6, D20) fee_pool/65536 + tips: saturating now; the plain `+` is an unlisted site again (tips of faucet transactions are minted)
-    (r"^UnsealedState::collect_proposer_action_fee\|extern\|<melstructs::CoinValue as std::ops::SubAssign>::sub_assign\|self\.fee_pool,Shr\(self\.fee_pool\.0, 16\)", "inv", "x − (x >> 16) cannot underflow"),
+    (r"^UnsealedState::collect_proposer_action_fee\|extern\|<melstructs::CoinValue as std::ops::SubAssign>::sub_assign\|(self|\$1)\.fee_pool,Shr\((self|\$1)\.fee_pool\.0, 16\)", "inv", "x − (x >> 16) cannot underflow"),
     (r"^applytx::check_tx_validity\|(extern\|<&u128 as std::ops::Add<u128>>::add|assert\|Overflow\(Add\))\|(Option::unwrap_or\(HashMap::get|Entry::or_insert\(HashMap::entry)\(in_coins, ", "finding", "D20: the sum of the inputs of one denomination is a plain u128 `+`; distinct existing coins bound it by the supply, which is below 2^127 on mainnet but unbounded wherever Faucet transactions are admitted — the repository's own test `overflow_coins` (#[should_panic]) pins the abort, so it cannot be repaired with the suite unedited"),
     (r"^applytx::compute_doscmint_speed\|assert\|DivisionByZero\|", "inv", "called after this.history.get(coin.height)? succeeded (C18.R1): history holds only past headers, so coin.height < this.height"),
     (r"^applytx::compute_doscmint_speed\|extern\|<melstructs::BlockHeight as std::ops::Sub>::sub\|\$3,\$4", "inv", "coin.height < this.height (same reason)"),
